@@ -161,7 +161,9 @@ def render_src(src, nostd=False):
         body = "pub struct %s();" % name
     else:
         body = "pub enum %s { A }" % name
-    outer = {"": "", "derive": "#[derive(Debug)]\n", "foreign": "#[repr(transparent)]\n", "doc": "/// documented\n"}[src["outer"]]
+    outer = {"": "", "derive": "#[derive(Debug)]\n", "foreign": "#[repr(transparent)]\n", "doc": "/// documented\n",
+             # the derive macro by its full path, and a multi-segment (tool) attribute: foreign attributes all the same
+             "derive_path": "#[::core::prelude::v1::derive(Default)]\n", "tool": "#[rustfmt::skip]\n"}[src["outer"]]
     out = (NOSTD_PRELUDE if nostd else PRELUDE) + "\n".join(consts + items) + "\n"
     out += "#[nutype(\n    %s\n)]\n%s%s\n" % (",\n    ".join(parts), outer, body)
     return out
